@@ -15,6 +15,7 @@ mod campaign;
 mod c03;
 mod c07;
 mod build_checks;
+mod c16;
 
 use rayon::prelude::*;
 
@@ -60,6 +61,7 @@ fn check(id: &str, tier: &str, seed: u64) -> i32 {
         "C07" => "C07",
         "C09" => "C09",
         "C13" => "C13",
+        "C16" => "C16",
         "C19" => "C19",
         "C20" => "C20",
         _ => {
@@ -90,6 +92,7 @@ fn check(id: &str, tier: &str, seed: u64) -> i32 {
         "C07" => c07::run_c07(tier, seed),
         "C09" => build_checks::run_c09(tier, seed),
         "C13" => build_checks::run_c13(tier, seed),
+        "C16" => c16::run_c16(tier, seed),
         "C19" => build_checks::run_c19(tier, seed),
         "C20" => build_checks::run_c20(tier, seed),
         _ => campaign::run_sem_campaign(prop, tier, seed),
@@ -114,6 +117,10 @@ fn replay_file(path: &std::path::Path) -> Result<Option<String>, String> {
         Some("c09") | Some("c13") | Some("c19") | Some("c20") => {
             let rep: build_checks::ProgReplay = serde_json::from_value(v).map_err(|e| e.to_string())?;
             build_checks::replay_prog(&rep)
+        }
+        Some("c16") => {
+            let rep: build_checks::ProgReplay = serde_json::from_value(v).map_err(|e| e.to_string())?;
+            c16::replay_c16(&rep)
         }
         Some("c07") => {
             let rep: c07::C07Replay = serde_json::from_value(v).map_err(|e| e.to_string())?;
